@@ -361,8 +361,9 @@ def enumerate_paths(cfg: CFG, start, *, stop=None, edge_ok=None, max_paths=5000,
 
 # ----------------------------------------------------------------------
 # lock sets (HELD)
-def held_locks(cfg: CFG, canon, *, is_lock=None):
-    """Must-analysis: canonical names of locks/conditions definitely held at each node's entry.
+def held_locks(cfg: CFG, canon, *, is_lock=None, mode='must'):
+    """Canonical names of locks/conditions held at each node's entry: definitely (mode='must')
+    or possibly (mode='may', used to find a lock still held at an exit).
 
     * `with L:` / `async with L:` adds L between with_enter and with_exit;
     * `L.acquire()` as an expression statement (untimed) adds L;
@@ -431,5 +432,6 @@ def held_locks(cfg: CFG, canon, *, is_lock=None):
             return s
         return s
 
-    st = forward(cfg, frozenset(), transfer, lambda x, y: x & y)
+    join = (lambda x, y: x & y) if mode == 'must' else (lambda x, y: x | y)
+    st = forward(cfg, frozenset(), transfer, join)
     return {k: frozenset(x[1] for x in v if x[0] == 'L') for k, v in st.items()}
